@@ -1,8 +1,9 @@
 (** Layout arithmetic on the fragment F1 ([CodeSem.in_f1]): every factor is
-    simple (no complex window), [act_design] lists every factor, all sustain
-    counts are 1 and all preambles 0.  Then the SAT-variable layout of
-    [Design/Layout.v] is the plain grid: the variable of (trial t, factor f,
-    level l) is [t * vpt + off f + l + 1].  Proof file. *)
+    simple (no complex window), [act_design] lists some of the design factors
+    in design order, each once (the others, "implied", have no variables), all
+    sustain counts are 1 and all preambles 0.  Then the SAT-variable layout of
+    [Design/Layout.v] is the plain grid: the variable of (trial t, active
+    factor f, level l) is [t * vpt + off f + l + 1].  Proof file. *)
 From Coq Require Import ZArith List Bool Arith Lia ZifyBool.
 From SP Require Import Design.Flat Design.Layout Encode.Compile Encode.CodeSem.
 From SP Require Core.Card.
@@ -11,9 +12,11 @@ Close Scope Z_scope.
 Open Scope nat_scope.
 
 Definition nf (fb : flat) : nat := length (fl_design fb).
-(* sum of the level counts of the factors before f *)
+(* levels that have variables: those of the factors of [act_design] *)
+Definition anl (fb : flat) (f : nat) : nat := if isact fb f then nlevels fb f else 0.
+(* sum of the level counts of the active factors before f *)
 Definition off (fb : flat) (f : nat) : nat :=
-  fold_left (fun acc g => acc + nlevels fb g) (seq 0 f) 0.
+  fold_left (fun acc g => acc + anl fb g) (seq 0 f) 0.
 (* SAT variable of (0-based trial t, factor f, level l) *)
 Definition gvar (fb : flat) (t f l : nat) : nat := t * vpt fb + off fb f + l + 1.
 
@@ -76,10 +79,31 @@ Proof.
   - destruct (existsb (Nat.eqb f) (fst p)); auto. apply H. left. reflexivity.
 Qed.
 
+Lemma fold_left_filter_add {A} (p : A -> bool) (h : A -> nat) :
+  forall l a, fold_left (fun acc g => acc + h g) (filter p l) a
+            = fold_left (fun acc g => acc + (if p g then h g else 0)) l a.
+Proof.
+  induction l as [|x l IH]; intros a; simpl; auto.
+  destruct (p x); simpl; rewrite IH; [reflexivity|]. f_equal. lia.
+Qed.
+
+Lemma NoDup_filter_seq (p : nat -> bool) : forall n s, NoDup (filter p (seq s n)).
+Proof.
+  intros n s. apply NoDup_filter. apply seq_NoDup.
+Qed.
+
+Lemma isact_In : forall fb f, isact fb f = true <-> In f (fl_act fb).
+Proof.
+  intros fb f. unfold isact. rewrite existsb_exists. split.
+  - intros [x [Hx E]]. apply Nat.eqb_eq in E. subst x. exact Hx.
+  - intros H. exists f. split; [exact H|apply Nat.eqb_refl].
+Qed.
+
 (** * Facts read off [in_f1] *)
 
 Record F1facts (fb : flat) : Prop := {
-  f1_act : fl_act fb = seq 0 (nf fb);
+  f1_act_sorted : fl_act fb = filter (isact fb) (seq 0 (nf fb));
+  f1_implied : forall f fd, nth_error (fl_design fb) f = Some fd -> implied_ok fb f fd = true;
   f1_factor : forall f fd, nth_error (fl_design fb) f = Some fd -> factor_f1 fd = true;
   f1_tables : forall f fd, nth_error (fl_design fb) f = Some fd ->
                            tables_ok fb f fd = true /\ tables_unambiguous fb fd = true;
@@ -110,11 +134,14 @@ Lemma in_f1_facts : forall fb, in_f1 fb = true -> F1facts fb.
 Proof.
   intros fb H. unfold in_f1 in H.
   repeat rewrite andb_true_iff in H.
-  destruct H as [[[[[[[[[[[[[[H1 H2] H3] H4] H5] H6] H7] H8] H9] H10] H11] H12] H13] H14] H15].
+  destruct H as [[[[[[[[[[[[[[H1 H2] [H3 H3b]] H4] H5] H6] H7] H8] H9] H10] H11] H12] H13] H14] H15].
   assert (Hs : forall n, In n (fl_sustains fb) -> n = 1).
   { intros n Hn. rewrite forallb_forall in H4. apply Nat.eqb_eq. apply H4. exact Hn. }
   constructor.
   - apply list_nat_eqb_eq. exact H3.
+  - intros f fd Hf. rewrite forallb_forall in H3b.
+    specialize (H3b (f, fd)). simpl in H3b. apply H3b.
+    apply (nth_error_combine_seq (fl_design fb) 0 f fd Hf).
   - intros f fd Hf. rewrite forallb_forall in H1. apply H1. eapply nth_error_In. exact Hf.
   - intros f fd Hf. rewrite forallb_forall in H2.
     specialize (H2 (f, fd)). simpl in H2. apply andb_true_iff. apply H2.
@@ -144,7 +171,7 @@ Qed.
 Lemma off_0 : forall fb, off fb 0 = 0.
 Proof. reflexivity. Qed.
 
-Lemma off_S : forall fb f, off fb (S f) = off fb f + nlevels fb f.
+Lemma off_S : forall fb f, off fb (S f) = off fb f + anl fb f.
 Proof.
   intros fb f. unfold off. rewrite seq_S, fold_left_app. reflexivity.
 Qed.
@@ -154,10 +181,16 @@ Proof.
   intros fb f g H. induction H as [|g H IH]; [lia|]. rewrite off_S. lia.
 Qed.
 
-Lemma off_mono : forall fb f g, f < g -> off fb f + nlevels fb f <= off fb g.
+Lemma off_mono : forall fb f g, f < g -> off fb f + anl fb f <= off fb g.
 Proof.
   intros fb f g H. rewrite <- off_S. apply off_le. lia.
 Qed.
+
+Lemma anl_act : forall fb f, isact fb f = true -> anl fb f = nlevels fb f.
+Proof. intros fb f H. unfold anl. rewrite H. reflexivity. Qed.
+
+Lemma anl_nact : forall fb f, isact fb f = false -> anl fb f = 0.
+Proof. intros fb f H. unfold anl. rewrite H. reflexivity. Qed.
 
 (** every range of [map_block_trial_ranges] lies within the trials *)
 Lemma ranges_loop_bound : forall fb fuel start e step stop,
@@ -228,6 +261,17 @@ Hypothesis HF1 : in_f1 fb = true.
 
 Let FF : F1facts fb := in_f1_facts fb HF1.
 
+Lemma f1_act_lt : forall f, isact fb f = true -> f < nf fb.
+Proof.
+  intros f Hf. apply isact_In in Hf. rewrite (f1_act_sorted fb FF) in Hf.
+  apply filter_In in Hf. destruct Hf as [Hf _]. apply in_seq in Hf. lia.
+Qed.
+
+Lemma f1_act_nodup : NoDup (fl_act fb).
+Proof.
+  rewrite (f1_act_sorted fb FF). apply NoDup_filter_seq.
+Qed.
+
 Lemma f1_is_complex : forall f, is_complex fb f = false.
 Proof.
   intros f. unfold is_complex, factor_at. destruct (nth_error (fl_design fb) f) as [fd|] eqn:E; auto.
@@ -236,9 +280,9 @@ Proof.
   apply negb_true_iff. exact H.
 Qed.
 
-Lemma f1_simple_act : simple_act fb = seq 0 (nf fb).
+Lemma f1_simple_act : simple_act fb = fl_act fb.
 Proof.
-  unfold simple_act. rewrite (f1_act fb FF). apply filter_all_true.
+  unfold simple_act. apply filter_all_true.
   intros f _. rewrite f1_is_complex. reflexivity.
 Qed.
 
@@ -274,12 +318,13 @@ Qed.
 
 Lemma f1_vpt : vpt fb = off fb (nf fb).
 Proof.
-  unfold vpt, variables_per_trial. rewrite f1_simple_act. reflexivity.
+  unfold vpt, variables_per_trial. rewrite f1_simple_act, (f1_act_sorted fb FF).
+  rewrite fold_left_filter_add. reflexivity.
 Qed.
 
-Lemma f1_off_vpt : forall f, f < nf fb -> off fb f + nlevels fb f <= vpt fb.
+Lemma f1_off_vpt : forall f, isact fb f = true -> off fb f + nlevels fb f <= vpt fb.
 Proof.
-  intros f Hf. rewrite f1_vpt. apply off_mono. exact Hf.
+  intros f Hf. rewrite f1_vpt, <- (anl_act fb f Hf). apply off_mono. apply f1_act_lt. exact Hf.
 Qed.
 
 Lemma fold_applies_count : forall f (l : list nat) acc,
@@ -298,31 +343,39 @@ Qed.
 
 Lemma f1_vps : variables_per_sample fb = T fb * vpt fb.
 Proof.
-  unfold variables_per_sample. rewrite (f1_act fb FF), f1_vpt.
+  unfold variables_per_sample. rewrite (f1_act_sorted fb FF), f1_vpt, fold_left_filter_add.
   induction (nf fb) as [|n IH].
   - rewrite off_0. simpl. lia.
-  - rewrite seq_S, fold_left_app, IH, off_S. cbn [fold_left Nat.add]. rewrite f1_vff. lia.
+  - rewrite seq_S, fold_left_app, IH, off_S. cbn [fold_left Nat.add]. unfold anl.
+    destruct (isact fb n); [rewrite f1_vff|]; lia.
 Qed.
 
 Lemma f1_grid : grid_variables fb = T fb * vpt fb.
 Proof. reflexivity. Qed.
 
-Lemma f1_simple_offset : forall n s f, s <= f < s + n ->
-  simple_offset fb (seq s n) f = Some (off fb f - off fb s).
+Lemma f1_simple_offset : forall n s f, s <= f < s + n -> isact fb f = true ->
+  simple_offset fb (filter (isact fb) (seq s n)) f = Some (off fb f - off fb s).
 Proof.
-  induction n as [|n IH]; intros s f H; [lia|].
-  cbn [seq simple_offset]. destruct (s =? f) eqn:E.
-  - apply Nat.eqb_eq in E. subst. f_equal. lia.
-  - apply Nat.eqb_neq in E. rewrite IH by lia. cbn [option_map]. f_equal.
-    pose proof (off_mono fb s f ltac:(lia)) as H1. rewrite off_S. lia.
+  induction n as [|n IH]; intros s f H Hf; [lia|].
+  cbn [seq filter]. destruct (isact fb s) eqn:Es.
+  - cbn [simple_offset]. destruct (s =? f) eqn:E.
+    + apply Nat.eqb_eq in E. subst. f_equal. lia.
+    + apply Nat.eqb_neq in E. rewrite IH by (try lia; exact Hf). cbn [option_map]. f_equal.
+      pose proof (off_mono fb s f ltac:(lia)) as H1.
+      rewrite off_S. rewrite (anl_act fb s Es) in *. lia.
+  - assert (E : s <> f) by (intros Q; subst; congruence).
+    rewrite IH by (try lia; exact Hf). f_equal.
+    rewrite off_S, (anl_nact fb s Es). lia.
 Qed.
 
-Lemma f1_first_var : forall f l, f < nf fb -> l < nlevels fb f ->
+Lemma f1_first_var : forall f l, isact fb f = true -> l < nlevels fb f ->
   first_variable_for_level fb f l = Some (off fb f + l).
 Proof.
-  intros f l Hf Hl. unfold first_variable_for_level. rewrite f1_is_complex.
+  intros f l Hf Hl. pose proof (f1_act_lt f Hf) as Hlt.
+  unfold first_variable_for_level. rewrite f1_is_complex.
   replace (l <? nlevels fb f) with true by (symmetry; apply Nat.ltb_lt; exact Hl).
-  rewrite f1_simple_act, f1_simple_offset by lia. cbn [option_map]. rewrite off_0. f_equal. lia.
+  rewrite f1_simple_act, (f1_act_sorted fb FF), f1_simple_offset by (try lia; exact Hf).
+  cbn [option_map]. rewrite off_0. f_equal. lia.
 Qed.
 
 Lemma f1_prev : forall f t, previous_trials_count fb f t = t - 1.
@@ -332,7 +385,7 @@ Proof.
   - intros x _. apply f1_applies.
 Qed.
 
-Lemma f1_encode_any : forall f l trial, f < nf fb -> l < nlevels fb f ->
+Lemma f1_encode_any : forall f l trial, isact fb f = true -> l < nlevels fb f ->
   encode_variable fb f l trial = Some (gvar fb (trial - 1) f l).
 Proof.
   intros f l trial Hf Hl. unfold encode_variable.
@@ -340,28 +393,30 @@ Proof.
   unfold gvar, vpt. f_equal. lia.
 Qed.
 
-Lemma f1_encode : forall f l t, f < nf fb -> l < nlevels fb f ->
+Lemma f1_encode : forall f l t, isact fb f = true -> l < nlevels fb f ->
   encode_variable fb f l (S t) = Some (gvar fb t f l).
 Proof.
   intros f l t Hf Hl. rewrite f1_encode_any by assumption. do 2 f_equal. lia.
 Qed.
 
-Lemma f1_get_variable : forall f l t, f < nf fb -> l < nlevels fb f ->
+Lemma f1_get_variable : forall f l t, isact fb f = true -> l < nlevels fb f ->
   get_variable fb (S t) f l = COk (gvar fb t f l).
 Proof.
   intros f l t Hf Hl. unfold get_variable. rewrite f1_encode by assumption. reflexivity.
 Qed.
 
-Lemma gvar_range : forall t f l, t < T fb -> f < nf fb -> l < nlevels fb f ->
+Lemma gvar_range : forall t f l, t < T fb -> isact fb f = true -> l < nlevels fb f ->
   1 <= gvar fb t f l <= T fb * vpt fb.
 Proof.
   intros t f l Ht Hf Hl. pose proof (f1_off_vpt f Hf) as H. unfold gvar. nia.
 Qed.
 
-Lemma off_level_inj : forall f l f' l', l < nlevels fb f -> l' < nlevels fb f' ->
+Lemma off_level_inj : forall f l f' l', isact fb f = true -> isact fb f' = true ->
+  l < nlevels fb f -> l' < nlevels fb f' ->
   off fb f + l = off fb f' + l' -> f = f' /\ l = l'.
 Proof.
-  intros f l f' l' Hl Hl' H.
+  intros f l f' l' Hf Hf' Hl Hl' H.
+  pose proof (anl_act fb f Hf) as Ea. pose proof (anl_act fb f' Hf') as Ea'.
   destruct (Nat.lt_trichotomy f f') as [C|[C|C]].
   - pose proof (off_mono fb f f' C). lia.
   - subst. split; lia.
@@ -369,7 +424,7 @@ Proof.
 Qed.
 
 Lemma gvar_inj : forall t f l t' f' l',
-  f < nf fb -> l < nlevels fb f -> f' < nf fb -> l' < nlevels fb f' ->
+  isact fb f = true -> l < nlevels fb f -> isact fb f' = true -> l' < nlevels fb f' ->
   gvar fb t f l = gvar fb t' f' l' -> t = t' /\ f = f' /\ l = l'.
 Proof.
   intros t f l t' f' l' Hf Hl Hf' Hl' H.
@@ -382,23 +437,24 @@ Proof.
 Qed.
 
 Lemma off_decompose : forall n r, r < off fb n ->
-  exists f l, f < n /\ l < nlevels fb f /\ r = off fb f + l.
+  exists f l, f < n /\ isact fb f = true /\ l < nlevels fb f /\ r = off fb f + l.
 Proof.
   induction n as [|n IH]; intros r Hr.
   - rewrite off_0 in Hr. lia.
   - rewrite off_S in Hr. destruct (Nat.lt_ge_cases r (off fb n)) as [C|C].
-    + destruct (IH r C) as [f [l [H1 [H2 H3]]]]. exists f, l. repeat split; auto.
-    + exists n, (r - off fb n). repeat split; lia.
+    + destruct (IH r C) as [f [l [H1 [H2 [H3 H4]]]]]. exists f, l. repeat split; auto.
+    + unfold anl in Hr. destruct (isact fb n) eqn:En; [|lia].
+      exists n, (r - off fb n). repeat split; auto; lia.
 Qed.
 
 Lemma gvar_surj : forall v, 1 <= v <= T fb * vpt fb ->
-  exists t f l, t < T fb /\ f < nf fb /\ l < nlevels fb f /\ v = gvar fb t f l.
+  exists t f l, t < T fb /\ isact fb f = true /\ l < nlevels fb f /\ v = gvar fb t f l.
 Proof.
   intros v Hv.
   assert (V : vpt fb <> 0) by nia.
   pose proof (Nat.div_mod (v - 1) (vpt fb) V) as D.
   pose proof (Nat.mod_upper_bound (v - 1) (vpt fb) V) as M.
-  destruct (off_decompose (nf fb) ((v - 1) mod vpt fb)) as [f [l [H1 [H2 H3]]]].
+  destruct (off_decompose (nf fb) ((v - 1) mod vpt fb)) as [f [l [_ [H1 [H2 H3]]]]].
   { rewrite <- f1_vpt. exact M. }
   exists ((v - 1) / vpt fb), f, l. repeat split; auto.
   - apply Nat.div_lt_upper_bound; [exact V|]. nia.
@@ -413,7 +469,7 @@ Proof.
   apply map_ext. intros i. unfold gvar, vpt. lia.
 Qed.
 
-Lemma f1_build_variable_lists : forall f l wb rs, f < nf fb -> l < nlevels fb f ->
+Lemma f1_build_variable_lists : forall f l wb rs, isact fb f = true -> l < nlevels fb f ->
   map_block_trial_ranges fb wb = Some rs ->
   build_variable_lists fb f l wb =
   Some (map (fun r => map (fun t => gvar fb t f l) (seq (fst r) (snd r - fst r))) rs).
@@ -423,7 +479,7 @@ Proof.
   apply map_ext. intros r. rewrite f1_is_complex. apply f1_simple_range_vars.
 Qed.
 
-Lemma f1_var_lists : forall f l wb rs, f < nf fb -> l < nlevels fb f ->
+Lemma f1_var_lists : forall f l wb rs, isact fb f = true -> l < nlevels fb f ->
   map_block_trial_ranges fb wb = Some rs ->
   var_lists fb f l wb =
   COk (map (fun r => map (fun t => gvar fb t f l) (seq (fst r) (snd r - fst r))) rs).
@@ -434,7 +490,7 @@ Proof.
 Qed.
 
 (** the whole-sequence case ([within_block = None]) *)
-Lemma f1_var_lists_none : forall f l, f < nf fb -> l < nlevels fb f ->
+Lemma f1_var_lists_none : forall f l, isact fb f = true -> l < nlevels fb f ->
   var_lists fb f l None =
   COk (if 0 <? T fb then [map (fun t => gvar fb t f l) (seq 0 (T fb))] else []).
 Proof.
@@ -447,19 +503,37 @@ Definition cons_row (t f : nat) : req :=
   (Card.EQ, 1%Z, map (fun l => Z.of_nat (gvar fb t f l)) (seq 0 (nlevels fb f))).
 
 Definition cons_grid (t0 n : nat) : list req :=
-  flat_map (fun t => map (cons_row t) (seq 0 (nf fb))) (seq t0 n).
+  flat_map (fun t => map (cons_row t) (fl_act fb)) (seq t0 n).
 
+(* [cons_factors] over a suffix of the act list, starting at the offset of its
+   first candidate factor *)
 Lemma f1_cons_factors : forall t n s,
-  cons_factors fb (seq s n) (1 + Z.of_nat (t * vpt fb + off fb s))%Z
-  = (map (cons_row t) (seq s n), (1 + Z.of_nat (t * vpt fb + off fb (s + n)))%Z).
+  cons_factors fb (filter (isact fb) (seq s n)) (1 + Z.of_nat (t * vpt fb + off fb s))%Z
+  = (map (cons_row t) (filter (isact fb) (seq s n)), (1 + Z.of_nat (t * vpt fb + off fb (s + n)))%Z).
 Proof.
   intros t. induction n as [|n IH]; intros s.
-  - cbn [seq cons_factors map]. rewrite Nat.add_0_r. reflexivity.
-  - cbn [seq cons_factors map].
-    replace (1 + Z.of_nat (t * vpt fb + off fb s) + zn (nlevels fb s))%Z
-      with (1 + Z.of_nat (t * vpt fb + off fb (S s)))%Z by (rewrite off_S; unfold zn; lia).
-    rewrite IH. replace (S s + n) with (s + S n) by lia. f_equal. f_equal.
-    unfold cons_row. f_equal. rewrite zrange_map. apply map_ext. intros i. unfold gvar. lia.
+  - cbn [seq filter cons_factors map]. rewrite Nat.add_0_r. reflexivity.
+  - cbn [seq filter]. replace (s + S n) with (S s + n) by lia.
+    destruct (isact fb s) eqn:Es.
+    + cbn [cons_factors map].
+      replace (1 + Z.of_nat (t * vpt fb + off fb s) + zn (nlevels fb s))%Z
+        with (1 + Z.of_nat (t * vpt fb + off fb (S s)))%Z
+        by (rewrite off_S, (anl_act fb s Es); unfold zn; lia).
+      rewrite IH. f_equal. f_equal.
+      unfold cons_row. f_equal. rewrite zrange_map. apply map_ext. intros i. unfold gvar. lia.
+    + replace (off fb s) with (off fb (S s)) by (rewrite off_S, (anl_nact fb s Es); lia).
+      apply IH.
+Qed.
+
+Lemma f1_cons_factors_act : forall t,
+  cons_factors fb (fl_act fb) (1 + Z.of_nat (t * vpt fb))%Z
+  = (map (cons_row t) (fl_act fb), (1 + Z.of_nat (S t * vpt fb))%Z).
+Proof.
+  intros t. rewrite (f1_act_sorted fb FF).
+  replace (1 + Z.of_nat (t * vpt fb))%Z with (1 + Z.of_nat (t * vpt fb + off fb 0))%Z
+    by (rewrite off_0; lia).
+  rewrite f1_cons_factors. cbn [Nat.add]. rewrite <- f1_vpt.
+  replace (t * vpt fb + vpt fb) with (S t * vpt fb) by lia. reflexivity.
 Qed.
 
 Lemma f1_cons_trials : forall n t,
@@ -468,11 +542,7 @@ Lemma f1_cons_trials : forall n t,
 Proof.
   induction n as [|n IH]; intros t.
   - cbn [cons_trials]. unfold cons_grid. cbn [seq flat_map]. rewrite Nat.add_0_r. reflexivity.
-  - cbn [cons_trials]. rewrite f1_simple_act.
-    replace (1 + Z.of_nat (t * vpt fb))%Z with (1 + Z.of_nat (t * vpt fb + off fb 0))%Z
-      by (rewrite off_0; lia).
-    rewrite f1_cons_factors. cbn [Nat.add]. rewrite <- f1_vpt.
-    replace (t * vpt fb + vpt fb) with (S t * vpt fb) by lia.
+  - cbn [cons_trials]. rewrite f1_simple_act, f1_cons_factors_act.
     rewrite IH. unfold cons_grid. cbn [seq flat_map].
     replace (S t + n) with (t + S n) by lia. reflexivity.
 Qed.
@@ -481,7 +551,7 @@ Lemma f1_cons_trials_all :
   cons_trials fb (T fb) 1%Z =
   (flat_map (fun t => map (fun f => (Card.EQ, 1%Z,
                                      map (fun l => Z.of_nat (gvar fb t f l)) (seq 0 (nlevels fb f))))
-                          (seq 0 (nf fb)))
+                          (fl_act fb))
             (seq 0 (T fb)),
    (1 + Z.of_nat (T fb * vpt fb))%Z).
 Proof.
@@ -495,7 +565,7 @@ Lemma f1_consistency : forall fresh,
          ct_requests :=
            flat_map (fun t => map (fun f => (Card.EQ, 1%Z,
                                              map (fun l => Z.of_nat (gvar fb t f l)) (seq 0 (nlevels fb f))))
-                                  (seq 0 (nf fb)))
+                                  (fl_act fb))
                     (seq 0 (T fb)) |}.
 Proof.
   intros fresh. unfold apply_consistency. rewrite f1_cons_trials_all, f1_complex_act.
